@@ -29,6 +29,9 @@ def gen_workspace(rng, *, max_channels=3, max_samples=3, max_bins=4, mods=None,
     have_mu = False
     # channel names are NOT in sorted order in general (pyhf sorts internally; order bugs hide otherwise)
     cnames = rng.sample(["ch0", "ch1", "ch2", "SR", "CR", "zlast", "Afirst"], nchan) if rng.random() < 0.6 else [f"ch{ci}" for ci in range(nchan)]
+    if rng.random() < 0.15:
+        # names are free text: punctuation and blanks, and names that differ ONLY in such characters
+        cnames = rng.sample(["e+jets", "e_jets", "e jets", "e-jets", "SR (1L)", "SR_1L", "SR.1L", "mu+jets", "mu_jets"], nchan)
     for ci in range(nchan):
         nb = rng.randint(1, max_bins)
         cname = f"{name_prefix}{cnames[ci]}"
